@@ -365,6 +365,13 @@ def elect_gate(run):
                     'or cfer\'s hasSurplus, is no longer what lean/Props/C04Loop.lean proves the model\'s election step to evaluate')
 
 
+def choice_gate(run):
+    return gen_gate(run, 'translator_choice', 'gen_choice', 'table',
+                    'Gen.choiceTable = C07.choiceTable by rfl; low_row_is_the_lowest, high_row_is_the_highest (lean/Props/C07Choice.lean)',
+                    'the min / max over a population and the tied-candidate list that follows it, in some rule module, are no longer the rows '
+                    'lean/Props/C07Choice.lean gives their meaning to')
+
+
 def tie_gate(run):
     return gen_gate(run, 'translator_tie', 'gen_tie', 'table',
                     'Gen.tieTable = C07.tieTable by rfl; breakTie_is_program (lean/Props/C07Tie.lean)',
@@ -677,7 +684,7 @@ def C03(run):
     count_property(run, dict(rules=STAT + ['wigm', 'cfer-batch', 'wigm-prf-batch', 'mpls', 'scotland'],
                              keys=['C04q', 'C06r', 'C07b', 'C07l', 'C07t', 'C07s'], proj=proj_C03, model_is_spec=True,
                              options_fn=wigm_fixed4, quick=9000, thorough=150000,
-                             extra_gate=lambda run: quota_gate(run) + formula_gate(run) + guard_gate(run) + transfer_gate(run) + keys_gate(run) + select_gate(run) + status_gate(run) + tie_gate(run) + elect_gate(run)))
+                             extra_gate=lambda run: quota_gate(run) + formula_gate(run) + guard_gate(run) + transfer_gate(run) + keys_gate(run) + select_gate(run) + status_gate(run) + tie_gate(run) + elect_gate(run) + choice_gate(run)))
 
 
 @prop('C04')
@@ -720,7 +727,7 @@ def retie_line(item):
 
 @prop('C07')
 def C07(run):
-    spec = dict(rules=ALL, keys=['EXC', 'C07b', 'C07l', 'C07t', 'C07s'], proj=proj_C07, quick=5000, thorough=150000, extra_gate=lambda run: guard_gate(run) + keys_gate(run) + tie_gate(run),
+    spec = dict(rules=ALL, keys=['EXC', 'C07b', 'C07l', 'C07t', 'C07s'], proj=proj_C07, quick=5000, thorough=150000, extra_gate=lambda run: guard_gate(run) + keys_gate(run) + tie_gate(run) + choice_gate(run),
                 families=['plain', 'symmetric', 'symmetric', 'sure_losers', 'on_quota', 'chains', 'few_supported', 'crossover', 'threeway'])
     count_property(run, spec)
     # when no tie is logged the record does not depend on the tie-break order (implementation vs implementation)
